@@ -94,21 +94,33 @@ def exchangeOutcomes (cf : MG Var) (outcomes : Event) (cond : Var) (val : Iv) : 
   let ps ← outcomes.mapM (exchangeKey cf cond val)
   pure (Event.ofList ps)
 
+/-- `remaining_conditions.get(outcome, value) != value`: the (re-subscripted) outcome `q` is the variable of a REMAINING condition
+that demands a different value -/
+def remClash (rem : Event) (q : Var × Iv) : Bool :=
+  match rem.get? q.1 with
+  | some v => decide (v ≠ q.2)
+  | none => false
+
 /-- the loop that rewrites the outcomes when rule 2 applies to `cond` (since `fix:` "IDC* returns Zero when the exchange makes two
 outcomes the same variable with different values"; before, a dict comprehension: the later conjunct silently overwrote the
-earlier one -- `exchangeOutcomes`).  `none`: an outcome was re-subscripted to (or already was) a key that is there with a
-DIFFERENT value: the event is inconsistent, IDC* answers Zero.  Errors of `intervene` surface in loop order. -/
-def exchangeLoop (cf : MG Var) (cond : Var) (val : Iv) : List (Var × Iv) → Event → Except Err (Option Event)
+earlier one -- `exchangeOutcomes`).  `rem` are the remaining conditions (`new_conditions` without `cond`).  `none`: an outcome was
+re-subscripted to (or already was) a key that is there with a DIFFERENT value, or (since `fix:` "IDC* returns Zero when the exchange
+makes an outcome a remaining condition's variable with a different value"; before, the `outcomes | conditions` of the recursive call
+silently kept the condition's value only) to the key of a remaining condition with a DIFFERENT value: the event is inconsistent,
+IDC* answers Zero.  Python tests the outcome/outcome clash first, then the outcome/condition clash, both before storing (both
+answers are Zero).  Errors of `intervene` surface in loop order. -/
+def exchangeLoop (cf : MG Var) (cond : Var) (val : Iv) (rem : Event) : List (Var × Iv) → Event → Except Err (Option Event)
   | [], acc => .ok (some acc)
   | p :: ps, acc => do
     let q ← exchangeKey cf cond val p
     match acc.get? q.1 with
-    | some v => if v = q.2 then exchangeLoop cf cond val ps (acc.set q.1 q.2) else pure none
-    | none => exchangeLoop cf cond val ps (acc.set q.1 q.2)
+    | some v =>
+      if v = q.2 then (if remClash rem q then pure none else exchangeLoop cf cond val rem ps (acc.set q.1 q.2)) else pure none
+    | none => if remClash rem q then pure none else exchangeLoop cf cond val rem ps (acc.set q.1 q.2)
 
-/-- `exchanged_outcomes` of line 4: `some` dict, or `none` (inconsistent: Zero) -/
-def exchangeStep (cf : MG Var) (outcomes : Event) (cond : Var) (val : Iv) : Except Err (Option Event) :=
-  exchangeLoop cf cond val outcomes []
+/-- `exchanged_outcomes` of line 4: `some` dict, or `none` (inconsistent: Zero); `rem` = `remaining_conditions` -/
+def exchangeStep (cf : MG Var) (outcomes : Event) (cond : Var) (val : Iv) (rem : Event) : Except Err (Option Event) :=
+  exchangeLoop cf cond val rem outcomes []
 
 /-! ### `Expression.conditional` (dsl.py:702-718, 864-878) -/
 
@@ -186,8 +198,8 @@ def idcStarFuel (ordf : List World → List World) (dordf kordf : List Var → L
         match nc.get? c with
         | none => throw (.internal "KeyError")
         | some val =>
-          match ← exchangeStep cf no c val with
-          | none => pure .zero     -- (`fix:` two outcomes became one variable with two values: inconsistent)
+          match ← exchangeStep cf no c val (nc.filter (fun p => p.1 ≠ c)) with
+          | none => pure .zero     -- (`fix:` two outcomes, or an outcome and a remaining condition, became one variable with two values)
           | some no' => idcStarFuel ordf dordf kordf G fuel no' (nc.filter (fun p => p.1 ≠ c))
       | none =>
         -- line 5
@@ -233,7 +245,7 @@ def idcStarTrace (ordf : List World → List World) (dordf kordf : List Var → 
           match nc.get? c with
           | none => ([here], true)
           | some val =>
-            match exchangeStep cf no c val with
+            match exchangeStep cf no c val (nc.filter (fun p => p.1 ≠ c)) with
             | .ok none => ([here], true)
             | .ok (some no') =>
               -- shared keys that the exchange re-subscripted (they stay as conditions under their old key)
